@@ -435,6 +435,21 @@ def run(spec):
         other = P(**dict(kwargs, n_designs=2))
         if obj == other:
           viol.append(('C17:different-objects-equal', detail))
+      # ... also after fields were re-assigned on objects that have already been compared (and on copies of them)
+      if not has_nan and 'n_designs' not in spec['fields']:
+        import copy
+        a, b = P(**kwargs), P(**kwargs)
+        steps = [a == b]
+        a.n_designs = 2 if kwargs.get('n_designs') != 2 else 3
+        steps.append(a == b)
+        c = copy.copy(a)
+        steps.append(c == a)
+        c.n_designs = b.n_designs
+        steps += [c == b, c == a, a != b]
+        b.n_designs = a.n_designs
+        steps.append(a == b)
+        if steps != [True, False, True, True, False, True, True]:
+          viol.append(('C17:equality-after-assignment', dict(detail, steps=steps, want=[True, False, True, True, False, True, True])))
     except Exception as e:  # pylint: disable=broad-except
       viol.append(('C17:equality-raised', dict(detail, exc='%s: %s' % (type(e).__name__, e))))
     fields = {f.name for f in dataclasses.fields(obj)}
